@@ -65,7 +65,31 @@ fn rand_leaf_shape(rng: &mut Rng, layers: &[i16]) -> (GdsElement, LeafShape) {
     let layer = *rng.pick(layers);
     let dtype = rng.range(0, 2) as i16;
     let o = (rng.range(-2000, 2000), rng.range(-2000, 2000));
-    match rng.below(7) {
+    match rng.below(9) {
+        8 => {
+            // a huge triangle with a long edge of slope ~1: coordinate differences whose products exceed 2^53
+            let m = (1i64 << *rng.pick(&[26u32, 27, 28, 29])) - rng.range(0, 5);
+            let mut q = vec![o, (o.0 + m, o.1 + m + 1), (o.0 + m, o.1)];
+            q.rotate_left(rng.usize(3));
+            if rng.bool() {
+                q.reverse();
+            }
+            (GdsBoundary { layer, datatype: dtype, xy: closed(&q), ..Default::default() }.into(), LeafShape { layer, dtype, geo: Geo::Poly(q) })
+        }
+        7 => {
+            // a right triangle with axis-parallel legs, written with one vertex repeated: four vertices, all on corners of the bounding box
+            let (w, h) = (rng.range(2, 300), rng.range(2, 300));
+            let corners = [o, (o.0 + w, o.1), (o.0 + w, o.1 + h), (o.0, o.1 + h)];
+            let skip = rng.usize(4);
+            let mut q: Vec<P> = (0..4).filter(|i| *i != skip).map(|i| corners[i]).collect();
+            let dup = rng.usize(3);
+            q.insert(dup, q[dup]);
+            q.rotate_left(rng.usize(4));
+            if rng.bool() {
+                q.reverse();
+            }
+            (GdsBoundary { layer, datatype: dtype, xy: closed(&q), ..Default::default() }.into(), LeafShape { layer, dtype, geo: Geo::Poly(q) })
+        }
         5 => {
             // four-vertex near-rectangle: a rectangle with one corner slid along a side (right trapezoid), any start vertex, either direction
             let (w, h) = (rng.range(2, 300), rng.range(2, 300));
@@ -185,7 +209,19 @@ fn gen_valid(rng: &mut Rng, big_arrays: bool) -> GenLib {
             };
             let (bx0, bx1) = (verts.iter().map(|v| v.0).min().unwrap(), verts.iter().map(|v| v.0).max().unwrap());
             let (by0, by1) = (verts.iter().map(|v| v.1).min().unwrap(), verts.iter().map(|v| v.1).max().unwrap());
-            let (layer, p) = match rng.below(9) {
+            let (layer, p) = match rng.below(10) {
+                9 => {
+                    // within two units of an edge, anywhere along it, and right next to its far end
+                    let k = rng.usize(verts.len());
+                    let (u, w) = (verts[k], verts[(k + 1) % verts.len()]);
+                    if rng.bool() {
+                        let t = rng.range(0, 1000) as i128;
+                        let f = ((u.0 as i128 + (w.0 - u.0) as i128 * t / 1000) as i64, (u.1 as i128 + (w.1 - u.1) as i128 * t / 1000) as i64);
+                        (sh.layer, (f.0 + rng.range(-2, 2), f.1 + rng.range(-2, 2)))
+                    } else {
+                        (sh.layer, (w.0 - (w.0 - u.0).signum(), w.1 - rng.range(1, 2) * (w.1 - u.1).signum()))
+                    }
+                }
                 0 => (sh.layer, a),                                  // a vertex / path start
                 1 => (sh.layer, (a.0 + 5000, a.1 + 5000)),           // far outside everything
                 2 => (sh.layer.wrapping_add(77), a),                 // other layer
